@@ -849,7 +849,7 @@ func TestC11(t *testing.T) {
 		"session leg: local endpoints, force-poll 1 s, probe mode assume; 'stays halted' is checked across 10 virtual minutes and one waiting flush, not across user edits of the roots",
 		"granularity: harness events at quiescence only")
 	dir := scratchDir(t)
-	deadline := vr.Deadline(50*time.Second, 9*time.Minute).Unix()
+	deadline := scaledDeadline(50*time.Second, 9*time.Minute).Unix()
 	n := vr.Workers()
 	var jobs []swJob
 	for i := 0; i < n; i++ {
